@@ -26,6 +26,17 @@ static size_t parse_data(const char *a) {
     return unhex(a, data);
 }
 
+/* read() as qhashmd5_file sees it (linked with --wrap=read): rd_short > 0: no call returns more than rd_short bytes (a legal short
+   read); rd_fail > 0: the rd_fail-th call fails with EINTR once.  Off (both 0) outside the injected ops. */
+ssize_t __real_read(int, void *, size_t);
+static long rd_short, rd_fail, rd_calls;
+ssize_t __wrap_read(int fd, void *buf, size_t cnt) {
+    rd_calls++;
+    if (rd_fail && rd_calls == rd_fail) { errno = EINTR; return -1; }
+    if (rd_short && cnt > (size_t)rd_short) cnt = (size_t)rd_short;
+    return __real_read(fd, buf, cnt);
+}
+
 /* run fn on the n bytes at p; result rendered into out */
 static void run1(const char *op, const unsigned char *p, size_t n, char *out) {
     if (QV_TRY(20)) {
@@ -54,7 +65,8 @@ int main(void) {
         size_t ol = sp - line; if (ol > 31) ol = 31; memcpy(op, line, ol); op[ol] = 0;
         char *d = sp + 1; char *e = d + strcspn(d, " \n"); char save = *e; *e = 0;
         size_t n = parse_data(d);
-        a2[0] = a3[0] = 0; if (save == ' ') sscanf(e + 1, "%63s %63s", a2, a3);
+        static char a4[64], a5[64];
+        a2[0] = a3[0] = a4[0] = a5[0] = 0; if (save == ' ') sscanf(e + 1, "%63s %63s %63s %63s", a2, a3, a4, a5);
         if (!strcmp(op, "md5file")) {
             long long off = atoll(a2), nb = atoll(a3);
             int fd = open(path, O_WRONLY | O_CREAT | O_TRUNC, 0600);
@@ -62,9 +74,11 @@ int main(void) {
             close(fd);
             unsigned char dg[16]; char out[64];
             if (QV_TRY(20)) {
-                bool ok = qhashmd5_file(path, (off_t)off, (ssize_t)nb, dg); QV_END;
+                /* "md5file <data> <off> <nb> s <k>": short reads of at most k bytes; "... e <k>": the k-th read fails with EINTR */
+                rd_calls = 0; rd_short = a4[0] == 's' ? atol(a5) : 0; rd_fail = a4[0] == 'e' ? atol(a5) : 0;
+                bool ok = qhashmd5_file(path, (off_t)off, (ssize_t)nb, dg); rd_short = rd_fail = 0; QV_END;
                 if (!ok) strcpy(out, "FALSE"); else for (int i = 0; i < 16; i++) sprintf(out + 2 * i, "%02x", dg[i]);
-            } else strcpy(out, qv_sig == SIGALRM ? "TIMEOUT" : "CRASH");
+            } else { rd_short = rd_fail = 0; strcpy(out, qv_sig == SIGALRM ? "TIMEOUT" : "CRASH"); }
             printf("%s\n", out); fflush(stdout);
             continue;
         }
@@ -79,8 +93,22 @@ int main(void) {
             memset(al, j ? 0xFF : 0x00, n + 48); memcpy(al + offs[k], data, n);
             run1(op, al + offs[k], n, r[2 + 2 * k + j]);
         }
+        /* digests written over the data they were computed from (iterated hashing, `qhashmd5(h, 16, h)`): the input is read completely
+           before the result is stored, so the result is the digest of the bytes the buffer held before the call */
+        char ov[2][64]; strcpy(ov[0], r[0]); strcpy(ov[1], r[0]);
+        if (!strcmp(op, "md5") || !strcmp(op, "mm128")) {
+            for (int k = 0; k < 2; k++) {
+                memset(al, 0xA5, n + 48); memcpy(al, data, n);
+                unsigned char *rb = k == 0 ? al : al + (n >= 16 ? ((n - 16) & ~(size_t)7) : 0);
+                if (QV_TRY(20)) {
+                    bool ok = op[1] == 'm' ? qhashmurmur3_128(al, n, rb) : qhashmd5(al, n, rb); QV_END;
+                    if (!ok) strcpy(ov[k], "FALSE"); else for (int i = 0; i < 16; i++) sprintf(ov[k] + 2 * i, "%02x", rb[i]);
+                } else strcpy(ov[k], qv_sig == SIGALRM ? "TIMEOUT" : "CRASH");
+            }
+        }
         int same = 1; for (int i = 1; i < 6; i++) if (strcmp(r[0], r[i])) same = 0;
-        if (same) printf("%s\n", r[0]);
+        if (same && (strcmp(r[0], ov[0]) || strcmp(r[0], ov[1]))) printf("UNSTABLE plain=%s result-over-head-of-data=%s result-over-tail-of-data=%s\n", r[0], ov[0], ov[1]);
+        else if (same) printf("%s\n", r[0]);
         else printf("UNSTABLE hi=%s lo=%s a1/00=%s a1/ff=%s a11/00=%s a11/ff=%s\n", r[0], r[1], r[2], r[3], r[4], r[5]);
         fflush(stdout);
     }
